@@ -1,0 +1,55 @@
+//! Verification hook (only compiled with `--cfg rssched_verif`): records the accepted steps of
+//! the local search on the calling thread. Inert unless a harness switched it on.
+
+use std::cell::RefCell;
+
+use rapid_solve::objective::EvaluatedSolution;
+use solution::Schedule;
+
+use crate::local_search::ScheduleWithInfo;
+
+/// one accepted step of the local search
+pub struct Step {
+    pub iteration: u32,
+    pub previous: Option<(Schedule, Vec<i64>)>,
+    pub new: (Schedule, Vec<i64>),
+}
+
+thread_local! {
+    static STEPS: RefCell<Option<Vec<Step>>> = const { RefCell::new(None) };
+}
+
+pub fn start_recording() {
+    STEPS.with(|s| *s.borrow_mut() = Some(Vec::new()));
+}
+
+pub fn take_recording() -> Vec<Step> {
+    STEPS.with(|s| s.borrow_mut().take().unwrap_or_default())
+}
+
+fn snapshot(solution: &EvaluatedSolution<ScheduleWithInfo>) -> (Schedule, Vec<i64>) {
+    (
+        solution.solution().get_schedule().clone(),
+        solution
+            .objective_value()
+            .iter()
+            .map(|v| v.unwrap_integer())
+            .collect(),
+    )
+}
+
+pub(crate) fn record_step(
+    iteration: u32,
+    current: &EvaluatedSolution<ScheduleWithInfo>,
+    previous: Option<&EvaluatedSolution<ScheduleWithInfo>>,
+) {
+    STEPS.with(|s| {
+        if let Some(steps) = s.borrow_mut().as_mut() {
+            steps.push(Step {
+                iteration,
+                previous: previous.map(snapshot),
+                new: snapshot(current),
+            });
+        }
+    });
+}
